@@ -268,6 +268,138 @@ def rule_G3b(prog, fixture=False):
     return res
 
 
+def rule_G3d(prog, fixture=False):
+    res = RuleResult("G3d", "in a slice assignment from another slice, wherever the two may view the same storage, no element of the "
+                            "source is read after an element of the destination has been written (one overlap-safe primitive, or "
+                            "the source materialised first): 'as if the source had been copied before the first write'")
+    methods = sorted([f for f in prog.functions.values() if f.cls and SLICE_CLASS.match(f.cls) and f.kind == "method" and not f.get("implicit")
+                      and _short(f.qn) == "operator=" and f.body() is not None and f.params and "slice_t<" in f.params[0].get("t", "")],
+                     key=lambda f: (f.cls, f.line))
+    if not methods and not fixture:
+        res.broken.append("anchor vanished: no slice_t<T>::operator=(const [const_]slice_t<T>&) found")
+        return res
+    n = 0
+    for f in methods:
+        ctx = GuardCtx(prog, f, group_params=False)
+        f.blocks
+        sobj = ("parm", f.params[0]["n"])
+        writes = [w for w in _element_writes(f, ctx) if not (w.k == "CXXOperatorCallExpr" and w.op == "=" and len(w.c) == 3
+                                                             and w.c[1].strip_all().k == "UnaryOperator")]   # `*this = x` is one whole assignment
+        reads = []
+        for x in f.walk():
+            if x.k == "UnaryOperator" and x.op == "*" and x.c and any(r == sobj for r in ctx.flow.root(x.c[0])):
+                par = x.parent
+                if par is not None and par.k in ("BinaryOperator", "CXXOperatorCallExpr") and par.op == "=" and par.c and par.c[0].id == x.id:
+                    continue
+                reads.append(x)
+            elif x.k == "ArraySubscriptExpr" and x.c and any(r == sobj for r in ctx.flow.root(x.c[0])):
+                reads.append(x)
+            elif x.k == "CXXOperatorCallExpr" and x.op in ("*", "[]") and len(x.c) >= 2 and any(r == sobj for r in ctx.flow.root(x.c[1])):
+                reads.append(x)
+        key = "G3d:%s" % fkey(f)
+        where = "%s:%d" % (prog.rel(f.file), f.line)
+        what = "%s reads the source before it writes" % f.short
+        extra = {"props": ["C04"]}
+        n += 1
+        bad = None
+        for w in writes:
+            wl = f.block_of(w)
+            if wl is None:
+                continue
+            after = f.reachable_from_succs(wl[0])
+            for r in reads:
+                rl = f.block_of(r)
+                if rl is None or any(a.id == w.id for a in r.ancestors()):
+                    continue          # the read is the right-hand side of this very write
+                later = (rl[0] == wl[0] and rl[1] > wl[1]) or (rl[0] in after)
+                if not later:
+                    continue
+                different = False
+                for fact in f.facts_at(r):
+                    if fact.belief:
+                        continue
+                    for (c, p) in atoms_of(fact.cond, fact.pol):
+                        if _alias_verdict(ctx, c, p, sobj) == "different":
+                            different = True
+                if not different:
+                    bad = (w, r)
+                    break
+            if bad:
+                break
+        if bad:
+            w, r = bad
+            res.add(key, VIOLATED, "%s:%d" % (prog.rel(f.file), r.line), what,
+                    "`%s` (line %d) reads an element of the source on a path on which `%s` (line %d) has already written into the "
+                    "destination, and nothing there says the two slices view different arrays: with overlapping slices of one array "
+                    "later elements are read after they were overwritten" % (r.text()[:40], r.line, w.text()[:50], w.line),
+                    func=f.name, extra=extra)
+        else:
+            res.add(key, DISCHARGED, where, what, "%d element read(s) of the source, %d element write(s): no read can follow a write where the "
+                    "storage may be shared" % (len(reads), len(writes)), func=f.name, extra=extra)
+    res.stats["assignments"] = n
+    return res
+
+
+def rule_G5b(prog, fixture=False):
+    res = RuleResult("G5b", "base_array::slice(...) hands its index arguments to the checking slice constructor as they are (the parameter, "
+                            "size() for the `end` placeholder, a literal): the range check of base_slice_t speaks about the caller's values, "
+                            "so an index that was resolved, clamped or shifted on the way is checked as a different index")
+    from .ir import _single_def
+    n = 0
+    for f in sorted(prog.functions.values(), key=lambda f: (f.file, f.line, f.name)):
+        if f.get("implicit") or f.kind != "method" or not (f.cls or "").startswith("dsplib::base_array<") or _short(f.qn) != "slice":
+            continue
+        ints = [q for q in f.params if q.get("tc") == "int"]
+        if not ints:
+            continue
+        ctors = [x for x in f.walk() if x.k in ("CXXConstructExpr", "CXXTemporaryObjectExpr", "CXXFunctionalCastExpr")
+                 and ANY_SLICE_CLASS.match(((x.callee or {}).get("cls") or "")) and len([a for a in x.c]) >= 3]
+        key = "G5b:%s" % fkey(f)
+        where = "%s:%d" % (prog.rel(f.file), f.line)
+        what = "%s forwards its indices" % f.short
+        extra = {"props": ["C04", "C05"]}
+        n += 1
+        if not ctors:
+            res.add(key, UNMODELLED, where, what, "no direct construction of a slice from the parameters found", func=f.name, extra=extra)
+            continue
+
+        def plain(e, depth=0):
+            e = e.strip_all()
+            while e.k in ("CXXStaticCastExpr", "CStyleCastExpr", "CXXFunctionalCastExpr", "ImplicitCastExpr") and len(e.c) == 1 and e.tc == "int":
+                e = e.c[0].strip_all()
+            if e.k == "DeclRefExpr" and e.decl and e.decl.get("k") == "parm":
+                return True
+            if e.k == "IntegerLiteral" or (e.k == "UnaryOperator" and e.op == "-" and e.c and e.c[0].strip_all().k == "IntegerLiteral"):
+                return True
+            if e.k == "CXXMemberCallExpr" and _short((e.callee or {}).get("qn")) == "size" and not e.call_args():
+                return True
+            if e.k == "DeclRefExpr" and e.decl and e.decl.get("k") == "local" and depth < 2:
+                d = _single_def(e)
+                return d is not None and plain(d, depth + 1)
+            return False
+        bad = None
+        for c in ctors:
+            args = [a for a in c.c if a.k != "CXXDefaultArgExpr"]
+            for a in args[1:3]:
+                if a.strip().tc == "int" and not plain(a):
+                    bad = (c, a)
+                    break
+            if bad:
+                break
+        if bad:
+            c, a = bad
+            res.add(key, VIOLATED, "%s:%d" % (prog.rel(f.file), c.line), what,
+                    "`%s` is passed where the caller's index belongs: the slice constructor resolves and range-checks *that* value, so an "
+                    "index outside [-n, n] can come out in range (or an in-range one out of it) and the slice denotes other elements than "
+                    "the caller named" % a.text()[:60], func=f.name, extra=extra)
+        else:
+            res.add(key, DISCHARGED, where, what, "the constructor receives the parameters themselves (%d construction(s))" % len(ctors), func=f.name, extra=extra)
+    res.stats["slice_overloads"] = n
+    if not n and not fixture:
+        res.broken.append("anchor vanished: no base_array<T>::slice(int, ...) overload found")
+    return res
+
+
 def rule_G3c(prog, fixture=False):
     res = RuleResult("G3c", "every normal return of a slice assignment operator lies behind a copy into the slice (a copy primitive, an "
                             "element write, a delegation to another assignment) - or is reached only when there is nothing to copy: the "
